@@ -202,7 +202,7 @@ MALFORMED_CLASSES = ["non-numeric", "missing-blank", "unknown-symbol",
                      "empty", "symbol-only", "number-only", "zero-division",
                      "double-point", "tab-separator", "other-type-symbol",
                      "garbage-exponent", "nan", "mutated",
-                     "non-decimal-digits"]
+                     "non-decimal-digits", "percent-sign"]
 
 
 def malformed_sub(chk, rng, w, wid, sym):
@@ -247,6 +247,11 @@ def malformed_sub(chk, rng, w, wid, sym):
         txt = rng.choice(["5\u00b2", "\u00b2", "3\u00b3", "\u2460", "1\u2082",
                           "\u00b9", "\u00bd", "\u2167", "1\u00b2.5",
                           "\u0663\u066b\u0665"]) + " " + sym
+    elif cls == "percent-sign":
+        # text that is dangerous for %-formatting of the error message
+        txt = rng.choice(["5 %", "12%", "12.5 %s", "100 %" + sym, "%d " + sym,
+                          "5 %(x)s", "%", "3 % " + sym, "7 %%"])
+        use_type = rng.random() < 0.5
     elif cls == "nan":
         txt = rng.choice(["nan", "inf", "-inf", "NaN", "Infinity"]) + " " + sym
     else:
@@ -301,7 +306,8 @@ def run(chk, R, tier, seed):
     # synthetic worlds with awkward symbols
     nw = 50 if tier == "quick" else 400
     cases = []
-    odd = ["µx", "a b", "x/y", "°X", "Ω", "m²s", "kg·m", "x_1", "a  b", "€"]
+    odd = ["µx", "a b", "x/y", "°X", "Ω", "m²s", "kg·m", "x_1", "a  b", "€",
+           "%", "%s"]
     for wi in range(nw):
         plan, ww = random_plan(rng, noref=(wi % 2 == 1))
         lin = [t for t in ww.types.values() if t.has_ref]
